@@ -17,6 +17,8 @@ import (
 	"path/filepath"
 	"strings"
 	"sync"
+	"sync/atomic"
+	"time"
 
 	"github.com/tailscale/setec/audit"
 	"github.com/tailscale/setec/db"
@@ -46,6 +48,29 @@ type C04Input struct {
 
 func init() {
 	commands["C04"] = runC04
+}
+
+// Child runs that ended because a call on the database handle never returned.  Every one costs
+// its time-out and they all say the same, so after c04HungCap of them the remaining fault runs
+// of the run are skipped (and counted).
+var c04Hung, c04Skipped atomic.Int32
+
+const c04HungCap = 8
+
+// bounded runs f (calls into a database handle) and reports whether it returned within
+// dbCallTimeout; if not, the goroutine is left behind (nothing can be done for it).
+func bounded(f func()) bool {
+	done := make(chan struct{})
+	go func() {
+		defer close(done)
+		f()
+	}()
+	select {
+	case <-done:
+		return true
+	case <-time.After(dbCallTimeout):
+		return false
+	}
 }
 
 var c04Kinds = []string{"create", "firstput", "newversion", "activate", "delver", "del"}
@@ -158,12 +183,19 @@ func prepareScenario(root string, sc c04Scenario) (*scenarioEnv, error) {
 		return nil, err
 	}
 	super := mkCaller(DBCaller{ID: 0, Rules: superRules()})
-	for _, st := range sc.Pre {
-		if r := applyOp(d, super, st); r.Class != "ok" && r.Class != "ver" {
+	for i, st := range sc.Pre {
+		var r resObs
+		if !bounded(func() { r = applyOp(d, super, st) }) {
+			return nil, fmt.Errorf("pre-history step %d (%s) never returned: the database handle is deadlocked", i, st.Kind)
+		}
+		if r.Class != "ok" && r.Class != "ver" {
 			return nil, fmt.Errorf("pre-history step %s failed: %s", st.Kind, r.Err)
 		}
 	}
-	fo := observeFile(path, kek)
+	var fo fileObs
+	if !bounded(func() { fo = observeFile(path, kek) }) {
+		return nil, fmt.Errorf("opening and listing the prepared database never returned")
+	}
 	if fo.Kind != "state" {
 		return nil, fmt.Errorf("pre-state does not open: %s", fo.Note)
 	}
@@ -238,6 +270,10 @@ func runC04Scenario(work string, idx int, sc c04Scenario, tier string, only *c04
 	if err != nil {
 		fatal("C04: %v", err) // the tracer is unavailable: the correspondence cannot run
 	}
+	if base.TimedOut {
+		c04Hung.Add(1)
+		return []Record{direct("trace", "the child did not finish: "+base.hungCall()+" never returned within "+childTimeout.String()+" (no fault injected) - the database handle is deadlocked")}
+	}
 	if base.Result == nil || !base.Trace.Begin || !base.Trace.End {
 		return []Record{direct("trace", "the traced child did not complete the operation: "+base.Exit)}
 	}
@@ -294,6 +330,10 @@ func runC04Scenario(work string, idx int, sc c04Scenario, tier string, only *c04
 			defer wg.Done()
 			sem <- struct{}{}
 			defer func() { <-sem }()
+			if j.run.Run == "fault" && only == nil && c04Hung.Load() >= c04HungCap {
+				c04Skipped.Add(1) // enough deadlocked handles seen in this run
+				return
+			}
 			for attempt := 0; attempt < 3; attempt++ {
 				rec, landed := runC04Job(se, kek, j.run, j.inject, j.want, atr)
 				if landed {
@@ -357,6 +397,23 @@ func runC04Job(se *scenarioEnv, kek tink.AEAD, run c04Run, inject, want, atr str
 		}
 		if !hit {
 			return rec, false
+		}
+		if cr.TimedOut {
+			// a call on the handle never returned: the child was ended after childTimeout; the trace
+			// tells which call it had announced, its notes what the operation itself had reported
+			c04Hung.Add(1)
+			said := "had not returned"
+			if p := cr.Partial; p != nil && p.Res.Class != "" {
+				said = "reported " + p.Res.Class
+				if p.Res.Err != "" {
+					said += " (" + p.Res.Err + ")"
+				}
+			}
+			rec.Direct = &DirectVerdict{OK: false, What: sprintf("%s of %s: with %s injected in %s (system call #%d of the save) the call %s; then the child did not finish: %s never returned within %s - the database handle is deadlocked (a lock was kept), later calls do not succeed",
+				se.sc.Kind, se.sc.Op.NameQ, run.Errno, run.Sys, run.Index, said, cr.hungCall(), childTimeout)}
+			rec.Obs = map[string]any{"calls": cr.Trace.classes(), "child_notes": cr.Partial, "last_call_announced": cr.Trace.LastCall}
+			rec.Tags = append(rec.Tags, "fs:hung")
+			return rec, true
 		}
 		if cr.Result == nil {
 			rec.Direct = &DirectVerdict{OK: false, What: "the process did not survive an I/O error in " + run.Sys + ": " + cr.Exit}
@@ -428,6 +485,10 @@ func runC04(o Opts) {
 		}(i, sc)
 	}
 	wg.Wait()
+	if n := c04Skipped.Load(); n > 0 {
+		out.Emit(Record{Kind: "fs-fault", Key: "skipped-after-hangs", Tags: []string{"fs:skipped-after-hangs"},
+			Obs: sprintf("%d fault runs were not made: %d child runs of this run had already ended in a deadlocked handle (each reported on its own)", n, c04Hung.Load())})
+	}
 	var selfSrc []Record
 	seen := map[string]bool{}
 	for _, rs := range all {
@@ -447,6 +508,9 @@ func runC04(o Opts) {
 	}
 	var dbSelf []Record
 	for i := 0; i < n; i++ {
+		if hungHistories >= 2 {
+			break // every further history would cost its time-outs and say the same (the fault runs above report the same deadlock with the system call that failed)
+		}
 		r := NewRand(o.Seed, uint64(1000+i))
 		length := profC04.MinLen + r.IntN(profC04.MaxLen-profC04.MinLen+1)
 		in := DBInput{Profile: "C04", Callers: profC04.Callers(r)}
@@ -456,7 +520,7 @@ func runC04(o Opts) {
 		rec.Coq = "DBc (" + rec.Coq + ")"
 		rec.ID = out.n
 		out.Emit(rec)
-		if len(dbSelf) < 2 && i%7 == 3 {
+		if len(dbSelf) < 2 && i%7 >= 3 && rec.Direct == nil {
 			raw.ID = rec.ID
 			dbSelf = append(dbSelf, raw)
 		}
